@@ -299,6 +299,23 @@ fn maps_long(thorough: bool, threads: usize, alpha: &[X]) -> Ctx {
     })
 }
 
+/// every NaN is the same null (DESIGN 5.4): the float encodings with the nulls written as the run-time NaN of
+/// x86-64 (sign bit set) and as both NaN kinds mixed
+fn check_nan_kinds(word: &[u8], alpha: &[X], ctx: &mut Ctx) {
+    let fam = "maps-nan-kinds";
+    let x = decode(word, alpha);
+    ctx.states += 1;
+    ctx.transitions += 1;
+    ctx.fam(fam).states += 1;
+    ctx.nontrivial(fam, hash_bytes(word));
+    for kind in [1u8, 3] {
+        with_nan_kind(kind, || {
+            check_ty::<f64>(fam, "f64", word, &x, alpha, ctx, true, num_runner::<f64>);
+            check_ty::<f32>(fam, "f32", word, &x, alpha, ctx, true, num_runner::<f32>);
+        });
+    }
+}
+
 fn main() {
     let run = Run::from_args("C13");
     let fam = Fam { alpha: vec![None, Some(-1.0), Some(0.0), Some(2.0)], max_len: run.pick(6, 9), backend_len: run.pick(3, 5) };
@@ -308,7 +325,9 @@ fn main() {
             std::process::exit(2)
         });
         let mut ctx = Ctx::new();
-        if stored["case"]["family"] == "maps-long" {
+        if stored["case"]["family"] == "maps-nan-kinds" {
+            check_nan_kinds(&syms_from_json(&stored["case"]["word"]), &fam.alpha, &mut ctx);
+        } else if stored["case"]["family"] == "maps-long" {
             let x = word_from_json(&stored["case"]["series"]);
             check_ty::<f64>("maps-long", "f64", &[], &x, &fam.alpha, &mut ctx, true, num_runner::<f64>);
             check_ty::<Option<f64>>("maps-long", "Option<f64>", &[], &x, &fam.alpha, &mut ctx, false, any_runner::<Option<f64>>);
@@ -319,6 +338,8 @@ fn main() {
     }
     let mut total = explore_tree(&fam, run.threads);
     total.merge(maps_long(!run.quick(), run.threads, &fam.alpha));
+    let nan_words: Vec<Vec<u8>> = all_words_upto(fam.alpha.len(), run.pick(5, 6)).into_iter().filter(|w| w.contains(&0)).collect();
+    total.merge(par_items(&nan_words, run.threads, |w, ctx| check_nan_kinds(w, &fam.alpha, ctx)));
     let meta = Meta {
         rule: "history tree of every word over {null,-1,0,2}; at each word every operation (shift, vshift, vdiff, vpct_change with every lag in -len-3..=len+3 and i32::MIN/MAX and every fill; ffill/bfill/fill and their mask forms; vclip with every ordered and unordered pair of bounds incl. null; abs, vabs) on f64/f32/i32/Option<f64>/Option<i32>, consumed by plain safe iteration and compared element by element with the positional definition; length law; clip containment and idempotence; short words on every input back end; the same operations on long structured series (24 / 40 / 130 elements, null blocks and periodic nulls). Non-trivial = word with a non-null element.".into(),
         bounds: json!({"alphabet": json_word(&fam.alpha), "L": fam.max_len, "backend_L": fam.backend_len, "lags": "-len-3..=len+3, i32::MIN, i32::MAX", "fills": ["omitted", "null", 7]}),
